@@ -397,7 +397,9 @@ class List(list, base.Symbolic, pg_typing.CustomTyping):
   def _set_item_without_permission_check(  # pytype: disable=signature-mismatch  # overriding-parameter-type-checks
       self, key: int, value: Any) -> Optional[base.FieldUpdate]:
     """Set or add an item without permission check."""
-    assert isinstance(key, numbers.Integral), key
+    if not isinstance(key, numbers.Integral):
+      raise KeyError(
+          self._error_message(f'Key must be int type. Encountered {key!r}.'))
     index = key
     if index >= len(self):
       # Appending MISSING_VALUE is considered no-op.
